@@ -8,7 +8,12 @@
 (*                  a fresh copy -- or (hazard) the registry's own dict         *)
 (*  Mutate:         the caller changes a dict it was given                      *)
 (*  vat(cc):        eu.vat country dispatch: lower, alias, membership test,     *)
-(*                  cache lookup, import, store                                 *)
+(*                  cache lookup, import, store.  The import is the             *)
+(*                  interpreter's: VLoad (module body runs, module in           *)
+(*                  sys.modules, no longer initialising) -> VAttach (attribute  *)
+(*                  set on the package); a second importer arriving in between  *)
+(*                  is handed the module at once and then looks the attribute   *)
+(*                  up (VGetattr)                                               *)
 (*                                                                             *)
 (* The hazard switches describe realistic wrong implementations; with all of    *)
 (* them FALSE the model is the code as it is.  PureResults: every value a call  *)
@@ -20,6 +25,7 @@ CONSTANTS Threads, Names, Codes, MaxCalls,
           BaseKey,          \* hazard: cache keyed by the file's base name
           AliasProps,       \* hazard: info() hands out the registry's own dict
           CacheBeforeMember,\* hazard: country cache consulted before the membership test
+          NoImportFallback, \* hazard (the code before fix 772c586): get_cc_module() trusts getattr(package, name) alone
           Faults            \* whether opening/parsing a registry may fail
 
 Base(n) == IF n \in {"be/banks", "cz/banks"} THEN "banks" ELSE n
@@ -36,11 +42,13 @@ VatOf(cc) == IF Alias(cc) \in Members THEN <<"module", Target(Alias(cc))>> ELSE 
 NoEntry == [present |-> FALSE, owner |-> "none", full |-> FALSE, dirty |-> FALSE]
 VARIABLES db,        \* numdb cache: key -> entry
           cc,        \* country cache: code -> "absent" | module
+          imp,       \* interpreter: country module -> "absent" | "body_done" | "attached"
           pc, arg, calls, ret, held
-vars == <<db, cc, pc, arg, calls, ret, held>>
+vars == <<db, cc, imp, pc, arg, calls, ret, held>>
 
 Init == /\ db = [k \in Keys |-> NoEntry]
         /\ cc = [c \in {Target(Alias(x)) : x \in Codes} \cup Codes |-> "absent"]
+        /\ imp = [c \in {Target(Alias(x)) : x \in Codes} \cup Codes |-> "absent"]
         /\ pc = [t \in Threads |-> "idle"] /\ arg = [t \in Threads |-> "none"]
         /\ calls = [t \in Threads |-> 0] /\ ret = [t \in Threads |-> <<"none">>]
         /\ held = [t \in Threads |-> "none"]        \* the registry whose dict the thread holds an alias of
@@ -49,62 +57,73 @@ Init == /\ db = [k \in Keys |-> NoEntry]
 GEnter(t) == /\ pc[t] = "idle" /\ calls[t] < MaxCalls
              /\ \E n \in Names : arg' = [arg EXCEPT ![t] = n]
              /\ pc' = [pc EXCEPT ![t] = "check"] /\ calls' = [calls EXCEPT ![t] = @ + 1]
-             /\ UNCHANGED <<db, cc, ret, held>>
+             /\ UNCHANGED <<imp, db, cc, ret, held>>
 GCheck(t) == /\ pc[t] = "check"
              /\ pc' = [pc EXCEPT ![t] = IF db[Key(arg[t])].present THEN "use" ELSE "parse"]
-             /\ UNCHANGED <<db, cc, arg, calls, ret, held>>
+             /\ UNCHANGED <<imp, db, cc, arg, calls, ret, held>>
 GParse(t) == /\ pc[t] = "parse" /\ ~StoreFirst
-             /\ pc' = [pc EXCEPT ![t] = "store"] /\ UNCHANGED <<db, cc, arg, calls, ret, held>>
+             /\ pc' = [pc EXCEPT ![t] = "store"] /\ UNCHANGED <<imp, db, cc, arg, calls, ret, held>>
 GFail(t) == /\ pc[t] \in {"parse", "fill"} /\ Faults
             /\ ret' = [ret EXCEPT ![t] = <<"raise", "IOError">>]
-            /\ pc' = [pc EXCEPT ![t] = "done"] /\ UNCHANGED <<db, cc, arg, calls, held>>
+            /\ pc' = [pc EXCEPT ![t] = "done"] /\ UNCHANGED <<imp, db, cc, arg, calls, held>>
 GStore(t) == /\ pc[t] = "store"
              /\ db' = [db EXCEPT ![Key(arg[t])] = [present |-> TRUE, owner |-> arg[t], full |-> TRUE, dirty |-> FALSE]]
-             /\ pc' = [pc EXCEPT ![t] = "use"] /\ UNCHANGED <<cc, arg, calls, ret, held>>
+             /\ pc' = [pc EXCEPT ![t] = "use"] /\ UNCHANGED <<imp, cc, arg, calls, ret, held>>
 GStoreEmpty(t) == /\ pc[t] = "parse" /\ StoreFirst
                   /\ db' = [db EXCEPT ![Key(arg[t])] = [present |-> TRUE, owner |-> arg[t], full |-> FALSE, dirty |-> FALSE]]
-                  /\ pc' = [pc EXCEPT ![t] = "fill"] /\ UNCHANGED <<cc, arg, calls, ret, held>>
+                  /\ pc' = [pc EXCEPT ![t] = "fill"] /\ UNCHANGED <<imp, cc, arg, calls, ret, held>>
 GFill(t) == /\ pc[t] = "fill"
             /\ db' = [db EXCEPT ![Key(arg[t])].full = TRUE]
-            /\ pc' = [pc EXCEPT ![t] = "use"] /\ UNCHANGED <<cc, arg, calls, ret, held>>
+            /\ pc' = [pc EXCEPT ![t] = "use"] /\ UNCHANGED <<imp, cc, arg, calls, ret, held>>
 GUse(t) == /\ pc[t] = "use"
            /\ LET e == db[Key(arg[t])]
               IN /\ ret' = [ret EXCEPT ![t] = IF ~e.full THEN <<"partial", e.owner>>
                                               ELSE IF e.dirty THEN <<"mutated", e.owner>> ELSE File(e.owner)]
                  /\ held' = [held EXCEPT ![t] = IF AliasProps THEN Key(arg[t]) ELSE "none"]
-           /\ pc' = [pc EXCEPT ![t] = "done"] /\ UNCHANGED <<db, cc, arg, calls>>
+           /\ pc' = [pc EXCEPT ![t] = "done"] /\ UNCHANGED <<imp, db, cc, arg, calls>>
 (* the caller changes the dict it was given (always allowed: it is the caller's object) *)
 Mutate(t) == /\ pc[t] = "idle" /\ held[t] # "none"
              /\ db' = [db EXCEPT ![held[t]].dirty = TRUE]
-             /\ held' = [held EXCEPT ![t] = "none"] /\ UNCHANGED <<cc, pc, arg, calls, ret>>
+             /\ held' = [held EXCEPT ![t] = "none"] /\ UNCHANGED <<imp, cc, pc, arg, calls, ret>>
 
 (* ---- eu.vat country dispatch ---- *)
 VEnter(t) == /\ pc[t] = "idle" /\ calls[t] < MaxCalls
              /\ \E c \in Codes : arg' = [arg EXCEPT ![t] = c]
              /\ pc' = [pc EXCEPT ![t] = IF CacheBeforeMember THEN "vcache" ELSE "vmember"]
-             /\ calls' = [calls EXCEPT ![t] = @ + 1] /\ UNCHANGED <<db, cc, ret, held>>
+             /\ calls' = [calls EXCEPT ![t] = @ + 1] /\ UNCHANGED <<imp, db, cc, ret, held>>
 VMember(t) == /\ pc[t] = "vmember"
               /\ IF Alias(arg[t]) \in Members
                  THEN pc' = [pc EXCEPT ![t] = IF CacheBeforeMember THEN "vimport" ELSE "vcache"] /\ UNCHANGED ret
                  ELSE pc' = [pc EXCEPT ![t] = "done"] /\ ret' = [ret EXCEPT ![t] = <<"none">>]
-              /\ UNCHANGED <<db, cc, arg, calls, held>>
+              /\ UNCHANGED <<imp, db, cc, arg, calls, held>>
 VCache(t) == /\ pc[t] = "vcache"
              /\ LET k == Target(Alias(arg[t]))
                 IN IF cc[k] # "absent"
                    THEN pc' = [pc EXCEPT ![t] = "done"] /\ ret' = [ret EXCEPT ![t] = <<"module", cc[k]>>]
                    ELSE pc' = [pc EXCEPT ![t] = IF CacheBeforeMember THEN "vmember" ELSE "vimport"] /\ UNCHANGED ret
-             /\ UNCHANGED <<db, cc, arg, calls, held>>
-VImport(t) == /\ pc[t] = "vimport"
+             /\ UNCHANGED <<imp, db, cc, arg, calls, held>>
+(* util.get_cc_module(): __import__(package, fromlist = [name]) followed by getattr(package, name, None)           *)
+VImport(t) == /\ pc[t] = "vimport"                      \* enters the import machinery
               /\ LET k == Target(Alias(arg[t]))
-                 IN /\ cc' = [cc EXCEPT ![k] = k]
-                    /\ ret' = [ret EXCEPT ![t] = <<"module", k>>]
-              /\ pc' = [pc EXCEPT ![t] = "done"] /\ UNCHANGED <<db, arg, calls, held>>
+                 IN IF imp[k] = "absent"
+                    THEN imp' = [imp EXCEPT ![k] = "body_done"] /\ pc' = [pc EXCEPT ![t] = "vattach"]   \* this thread loads it
+                    ELSE UNCHANGED imp /\ pc' = [pc EXCEPT ![t] = "vgetattr"]                           \* handed over without waiting
+              /\ UNCHANGED <<db, cc, arg, calls, ret, held>>
+VAttach(t) == /\ pc[t] = "vattach"
+              /\ imp' = [imp EXCEPT ![Target(Alias(arg[t]))] = "attached"]
+              /\ pc' = [pc EXCEPT ![t] = "vgetattr"] /\ UNCHANGED <<db, cc, arg, calls, ret, held>>
+VGetattr(t) == /\ pc[t] = "vgetattr"
+               /\ LET k == Target(Alias(arg[t]))
+                      found == imp[k] = "attached" \/ ~NoImportFallback       \* the fix asks for the submodule itself
+                  IN /\ cc' = [cc EXCEPT ![k] = IF found THEN k ELSE "None"]
+                     /\ ret' = [ret EXCEPT ![t] = IF found THEN <<"module", k>> ELSE <<"none">>]
+               /\ pc' = [pc EXCEPT ![t] = "done"] /\ UNCHANGED <<imp, db, arg, calls, held>>
 
-Return(t) == /\ pc[t] = "done" /\ pc' = [pc EXCEPT ![t] = "idle"] /\ UNCHANGED <<db, cc, arg, calls, ret, held>>
+Return(t) == /\ pc[t] = "done" /\ pc' = [pc EXCEPT ![t] = "idle"] /\ UNCHANGED <<imp, db, cc, arg, calls, ret, held>>
 
 Next == \E t \in Threads : \/ GEnter(t) \/ GCheck(t) \/ GParse(t) \/ GFail(t) \/ GStore(t) \/ GStoreEmpty(t)
                            \/ GFill(t) \/ GUse(t) \/ Mutate(t) \/ VEnter(t) \/ VMember(t) \/ VCache(t)
-                           \/ VImport(t) \/ Return(t)
+                           \/ VImport(t) \/ VAttach(t) \/ VGetattr(t) \/ Return(t)
 Spec == Init /\ [][Next]_vars
 
 (* every returned value depends on the arguments (and the files) only; a raised I/O fault is the environment's doing *)
